@@ -342,7 +342,7 @@ def inline_new_temporaries(fnode, base_names, stats):
     for st in list(b):
       if isinstance(st, ast.Assign) and len(st.targets) == 1 and isinstance(st.targets[0], ast.Tuple) and isinstance(st.value, ast.Call):
         names = [e.id for e in st.targets[0].elts if isinstance(e, ast.Name)]
-        if len(names) != len(st.targets[0].elts) or any(n in base_names for n in names):
+        if len(names) < 2 or len(names) != len(st.targets[0].elts) or any(n in base_names for n in names):
           continue
         uses = [(_loads(fnode, n)) for n in names]
         if any(len(u) != 1 for u in uses):
@@ -386,7 +386,19 @@ def rename_function(fnode, rel, qualname, base_funcs, stats):
     fnode.body = [r.visit(s) for s in fnode.body]
   try:
     base_names = set(base.get('params', [])) | set(b[0] for b in base.get('locals', []))
-    inline_new_temporaries(fnode, base_names, stats)
+    for _pass in range(2):
+      before = stats.get('temps', 0)
+      inline_new_temporaries(fnode, base_names, stats)
+      # substituting temporaries can make more definitions match the reference shapes
+      params, locs = local_defs_fp(fnode)
+      mapping = match_names(params, locs, base)
+      if mapping:
+        stats['renamed'] = stats.get('renamed', 0) + len(mapping)
+        r = _Rename(mapping)
+        fnode.args = r.visit(fnode.args)
+        fnode.body = [r.visit(s) for s in fnode.body]
+      if stats.get('temps', 0) == before and not mapping:
+        break
   except Exception as e:
     stats['temps_error'] = repr(e)
   # nested functions (by their, possibly renamed, names)
@@ -471,7 +483,7 @@ def _bind(helper, call, is_method):
   return subst, prologue
 
 
-def inline_body(helper, call, is_method, kind, target, caller_locals):
+def inline_body(helper, call, is_method, kind, target, caller_locals, base_line=None):
   """Statements replacing a call statement. kind: 'expr' | 'assign' | 'return'."""
   b = _bind(helper, call, is_method)
   if b is None:
@@ -544,9 +556,76 @@ def inline_body(helper, call, is_method, kind, target, caller_locals):
       init.append(ast.Assign(targets=[ast.Name(id=done, ctx=ast.Store())], value=ast.Constant(value=False), **loc))
     loop = ast.While(test=ast.Constant(value=True), body=nb + [ast.Break(**loc)], orelse=[], **loc)
     out = prologue + init + [loop] + (finish(ast.Name(id=rv, ctx=ast.Load())) if kind != 'expr' else [])
+  # inlined statements get virtual, strictly increasing positions just after the call site so
+  # that position-ordered queries (reaching definitions) see them in execution order
+  counter = [0]
+  base_line = (base_line if base_line is not None else getattr(call, 'lineno', 1)) - 1
+
+  def renumber(stmts):
+    for st in stmts:
+      counter[0] += 1
+      ln = int(base_line) + counter[0] * 1e-4
+      for n in ast.walk(st) if not isinstance(st, (ast.If, ast.For, ast.While, ast.Try, ast.With)) else [st]:
+        if hasattr(n, 'lineno') or isinstance(n, (ast.expr, ast.stmt)):
+          n.lineno = ln
+          n.end_lineno = ln
+          if not hasattr(n, 'col_offset'):
+            n.col_offset = 0
+      if isinstance(st, (ast.If, ast.For, ast.While, ast.Try, ast.With)):
+        for fld, val in ast.iter_fields(st):
+          if isinstance(val, ast.expr):
+            for n in ast.walk(val):
+              n.lineno = ln
+              n.end_lineno = ln
+          elif isinstance(val, list) and val and isinstance(val[0], ast.expr):
+            for v in val:
+              for n in ast.walk(v):
+                n.lineno = ln
+                n.end_lineno = ln
+          elif isinstance(val, list) and val and isinstance(val[0], ast.withitem):
+            for v in val:
+              for n in ast.walk(v):
+                if isinstance(n, (ast.expr,)):
+                  n.lineno = ln
+                  n.end_lineno = ln
+        for fld in ('body', 'orelse', 'finalbody'):
+          sub = getattr(st, fld, None)
+          if isinstance(sub, list) and sub and isinstance(sub[0], ast.stmt):
+            renumber(sub)
+        for h in getattr(st, 'handlers', []) or []:
+          h.lineno = ln
+          if h.type is not None:
+            for n in ast.walk(h.type):
+              n.lineno = ln
+          renumber(h.body)
   for st in out:
     ast.fix_missing_locations(st)
+  renumber(out)
   return out
+
+
+def _hoistable(root, target):
+  """Is `target` evaluated before any other impure sub-expression of root (other than the
+  calls that contain it)?"""
+  containing = set()
+  def mark(n):
+    if n is target:
+      return True
+    hit = False
+    for ch in ast.iter_child_nodes(n):
+      if mark(ch):
+        hit = True
+    if hit:
+      containing.add(id(n))
+    return hit
+  mark(root)
+  for n in ast.walk(root):
+    if isinstance(n, ast.Call) and n is not target and id(n) not in containing:
+      if not any(x is n for x in ast.walk(target)):
+        # another call outside the target and not enclosing it: order could change
+        if not _is_pure(n):
+          return False
+  return True
 
 
 def _expr_helper(helper):
@@ -651,15 +730,33 @@ def _inline_in(d, new, is_method, cls_name, stats):
       if isinstance(st, ast.Expr):
         h = _call_to(st.value, new, is_method, cls_name)
         if h is not None and h is not d:
-          rep = inline_body(h, st.value, is_method and not _is_static(h), 'expr', None, caller_locals)
+          rep = inline_body(h, st.value, is_method and not _is_static(h), 'expr', None, caller_locals, st.lineno)
       elif isinstance(st, ast.Assign):
         h = _call_to(st.value, new, is_method, cls_name)
         if h is not None and h is not d:
-          rep = inline_body(h, st.value, is_method and not _is_static(h), 'assign', st.targets, caller_locals)
+          rep = inline_body(h, st.value, is_method and not _is_static(h), 'assign', st.targets, caller_locals, st.lineno)
       elif isinstance(st, ast.Return) and st.value is not None:
         h = _call_to(st.value, new, is_method, cls_name)
         if h is not None and h is not d:
-          rep = inline_body(h, st.value, is_method and not _is_static(h), 'return', None, caller_locals)
+          rep = inline_body(h, st.value, is_method and not _is_static(h), 'return', None, caller_locals, st.lineno)
+      if rep is None and isinstance(st, (ast.Return, ast.Assign, ast.Expr)) and getattr(st, 'value', None) is not None:
+        # a multi-statement helper called in argument position: hoist it into a temporary
+        # first (only when everything evaluated before it is pure)
+        inner = [n for n in ast.walk(st.value) if n is not st.value and _call_to(n, new, is_method, cls_name) is not None
+                 and _expr_helper(_call_to(n, new, is_method, cls_name)) is None]
+        if len(inner) == 1 and _hoistable(st.value, inner[0]):
+          h = _call_to(inner[0], new, is_method, cls_name)
+          if h is not d:
+            tmp = '__hoist_%s' % h.name.strip('_')
+            pre = inline_body(h, inner[0], is_method and not _is_static(h), 'assign', [ast.Name(id=tmp, ctx=ast.Store())], caller_locals, st.lineno)
+            if pre is not None:
+              _replace_node(st, inner[0], ast.Name(id=tmp, ctx=ast.Load()))
+              ast.fix_missing_locations(st)
+              changed[0] = True
+              stats['inlined'] = stats.get('inlined', 0) + 1
+              out.extend(pre)
+              out.append(st)
+              continue
       if rep is not None:
         changed[0] = True
         stats['inlined'] = stats.get('inlined', 0) + 1
